@@ -297,6 +297,33 @@ def run(R):
                                       "args": args, "tree": cli.tree_json(tree), "history": [list(x) for x in seq], "build": os.path.basename(os.path.dirname(b))})
                     if i < 2 and len(R.coverage["samples"]) < 4:
                         R.sample({"args": args, "exit": rc})
+    # a working directory, a search root and entries whose names are not valid UTF-8 (legal Unix file names), every planning and
+    # applying command, with and without --output json
+    with cli.Sandbox([{"p": "a.txt", "k": "f", "c": b"old_name\n", "m": 0o644}]) as sb:
+        rb = os.fsencode(str(sb.root))
+        for d in (rb + b"/w\xffork/src", rb + b"/plain/d\xfe", rb + b"/plain/old_name_\xfd"):
+            os.makedirs(d)
+            with open(d + b"/old_name_\xfc.txt", "wb") as fh:
+                fh.write(b"old_name OldName\n")
+            with open(d + b"/old_name.txt", "wb") as fh:
+                fh.write(b"old_name OldName\n")
+        for cmd in (["search", "old_name"], ["plan", "old_name", "new_name", "--dry-run"], ["plan", "old_name", "new_name"], ["apply"],
+                    ["rename", "old_name", "new_name", "--dry-run"], ["replace", "old_name", "new_name", "--dry-run"],
+                    ["rename", "old_name", "new_name"], ["undo", "latest"], ["status"], ["history"]):
+            for out in ([], ["--output", "json"], ["--preview", "diff"] if cmd[0] in ("plan", "rename", "search") else ["--quiet"]):
+                for cwd, extra in ((rb + b"/w\xffork", []), (rb + b"/plain", [b"d\xfe"] if cmd[0] in ("search", "plan", "rename", "replace") else []),
+                                   (rb + b"/plain", [])):
+                    args = ["--no-auto-init", "-y"] + cmd + extra + out
+                    rc, o, e = sb.run(args, timeout=60, cwd=cwd)
+                    stats["cli_runs"] += 1
+                    stats["non_utf8_place_runs"] = stats.get("non_utf8_place_runs", 0) + 1
+                    stats["exit_codes"][rc] = stats["exit_codes"].get(rc, 0) + 1
+                    shown = [a if isinstance(a, str) else repr(a) for a in args]
+                    R.case(("nonutf8_place", tuple(shown), repr(cwd[len(rb):])), nontrivial=True)
+                    err = e.decode("utf-8", "replace")
+                    if rc == 101 or "panicked at" in err or rc not in OK_EXITS:
+                        fails.append({"why": f"command exited with status {rc} in a place with a non-UTF-8 name" + (": " + err[err.find("panicked at"):][:200] if "panicked at" in err else ""),
+                                      "args": shown, "cwd_below_root": repr(cwd[len(rb):]), "history": [shown], "build": "debug"})
     # every enumerated value of every option of every subcommand, once on its own (the values come from the real clap grammar)
     small = [{"p": "a.txt", "k": "f", "c": b"old_name OldName old-name\nOld Name\n", "m": 0o644}, {"p": "old_name_dir", "k": "d", "m": 0o755}]
     for sc in grammar["subcommands"]:
